@@ -36,7 +36,9 @@ RULE = ("auditok.cmdline.main(argv) run in-process (its sleep shortened; no othe
         "printf '{id} {start} {end}', time format %S); ids 1..k; times checked through FMT; -q => empty stdout; -O file == the "
         "audio read, -o files named from the template holding each detection, -j file == events joined by silence; -j without -O "
         "=> status 1; status 0 otherwise.  Formatter: %S / %I / %h%m%s%i checked by FMT on generated durations incl. 59.9996, "
-        "3599.9995, k*0.01, values up to 1e6 s; unknown directive => TimeFormatError.  Non-trivial = >=1 detection printed or "
+        "3599.9995, k*0.01, values up to 1e6 s; unknown directive => TimeFormatError.  Rates 1000..22050 Hz; when -a times the rate "
+        "is not a whole number of samples (22050 Hz x 10 ms, 1000 Hz x 33.3 ms) the oracle is split() on AudioReader(block_dur=-a), "
+        "the reader the program builds (durations counted in its effective block, C06).  Non-trivial = >=1 detection printed or "
         "file written; distinct = distinct (recording, argv).")
 ASSUMPTIONS = [
     "-a values are chosen so that a*rate is a whole number of samples (otherwise the tool legitimately counts durations in the reader's shorter block, see C09)",
